@@ -274,6 +274,6 @@ def run(rep, prog, thorough):
     check_fields(rep, prog)
     check_hexdump_lines(rep, prog, "C16.R2.hexdump", thorough)
     from ..effects import check_text_decoding
-    check_text_decoding(rep, prog, "C16.R3.field-table", "io_drawer.hlog", "the history-log header file")
+    check_text_decoding(rep, prog, "C16.R3.field-table", "io_drawer", "a definition file of the IO drawer decoders")
     from ..effects import check_no_memoised
     check_no_memoised(rep, prog, 'C16.R3.field-table', ['io_drawer', 'pel.hexdump'], 'the field table of an earlier decode is reused although the header file given now may differ')
